@@ -664,6 +664,9 @@ Section WithVars.
     '(expr_ret, ex) <-
       (match e with
        | ERead var sp =>
+         (* the name of a blob or an enum is a type, it has no value (since 9c09349) *)
+         tn <- is_type_name var ;;
+         if tn then fail KExotic sp else
          k <- var_kind var ;;
          if inside_pure ctx && negb (immutable k) then fail KImpurity sp
          else t <- var_ty var ;; ret (None, t)
@@ -984,12 +987,14 @@ Section WithVars.
   Definition outer_statement (R : arec) (s : stmt) (ctx : tctx) : M unit :=
     match s with
     | SEnum name var sp variables variants =>
+      add_type_name var ;;;
       enum_ty <- var_ty var ;;
       '(type_params, seen) <- decl_params variables ;;
       resolved <- decl_fields R (length seen) (source_order variants) seen ;;
       t <- push_type (HEnum name sp resolved type_params) ;;
       unify G sp t enum_ty ;;; ret tt
     | SBlob name var sp variables fields external =>
+      add_type_name var ;;;
       blob_ty <- var_ty var ;;
       '(type_params, seen) <- decl_params variables ;;
       resolved <- decl_fields R (length seen) (source_order fields) seen ;;
